@@ -484,7 +484,13 @@ class Visitor(ast.NodeVisitor):
         if node.id in self._name_to_value:
             result = self._name_to_value[node.id]
 
-        if result is None and hasattr(builtins, node.id):
+        # Look the name up in the built-ins only if it is unbound. A bound variable, even if set to None,
+        # shadows the built-in of the same name.
+        if (
+            result is None
+            and node.id not in self._name_to_value
+            and hasattr(builtins, node.id)
+        ):
             result = getattr(builtins, node.id)
 
         if result is None and node.id != "None":
